@@ -129,7 +129,7 @@ func (V *Verifier) render(o *Obligation, withModel bool) string {
 	return b.String()
 }
 
-var solverSem = make(chan struct{}, 28)
+var solverSem = make(chan struct{}, 18)
 
 func runSolver(cfg solverCfg, file string, timeout time.Duration, seed int) (string, string, time.Duration) {
 	return runSolverCtx(context.Background(), cfg, file, timeout, seed)
